@@ -84,3 +84,22 @@ Theorem C01_executables_agree : forall orbit t w, wf_tok t = true -> trees_exact
   accepts orbit (encode t) w = spec_match orbit t w.
 Proof. exact executables_agree. Qed.
 Print Assumptions C01_executables_agree.
+
+(* ---- for the globs that build ------------------------------------------------------------------------------------------
+   The hypotheses of the main statement are discharged for every glob that builds, except for the three known classes, which are
+   exactly their complement: a class with a reversed range (reversed_class_range), a tree wildcard whose flat position is not the
+   same in every expansion (unstable_tree_position), a rooted tree wildcard that begins the expression and is followed by something
+   (rooted_first_tree).  Outside them the compiled program matches a text exactly when it belongs to the documented language. *)
+From WaxModel Require Import Variance Fold Rule Parse Query Glob.
+From WaxProofs Require Import BuiltConformance.
+
+Theorem C01_built_globs_conform : forall orbit e t r,
+  build e = BuildOk t r -> has_reversed_range t = false -> trees_stable t = true -> rooted_first_tree t = false ->
+  forall w, sem orbit (encode t) w <-> Lang orbit t w.
+Proof. exact built_conformance. Qed.
+Print Assumptions C01_built_globs_conform.
+
+Theorem C01_class_of_conformance_is_the_complement_of_the_known_classes :
+  forall t, trees_exact t = trees_stable t && negb (rooted_first_tree t).
+Proof. exact trees_exact_split. Qed.
+Print Assumptions C01_class_of_conformance_is_the_complement_of_the_known_classes.
